@@ -13,7 +13,9 @@ static Mac obs_special(int id, uint64_t base) {
         case 0xFFFFF1: return ZEROMAC;
         case 0xFFFFF2: return BCAST;
         case 0xFFFFF3: return g_st0;
-        default: return mac_from_u64(base + (uint64_t)(id & 0xFFFFFF));
+        default:
+            if ((id & 0xFFFF00) == 0xFFFE00) return mac_from_u64((base + (uint64_t)(id & 0xFF)) ^ 0xFFFF00000000ULL);   // twin: same last four octets, other first two
+            return mac_from_u64(base + (uint64_t)(id & 0xFFFFFF));
     }
 }
 static Mac obs_esrc(int id) { return obs_special(id, 0x0400CC000000ULL); }
@@ -183,7 +185,7 @@ int main(int argc, char **argv) {
                 next_id += (int)n; left -= n;
                 int extras = *gx::range<int>(0, 3);
                 for (int x = 0; x < extras; x++) {
-                    int what = *gx::range<int>(0, 10);
+                    int what = *gx::range<int>(0, 11);
                     Op o;
                     if (what == 0 && next_id > 0) { int id = *gx::range<int>(0, next_id - 1); o.kind = K_PROBE; o.a = {id, id % 3, 0, 0}; }   // exact duplicate (maybe of an already reported one: then it is new again)
                     else if (what == 1) { o.kind = K_BURST; o.a = {*gx::range<int>(400, 800), *gx::range<int>(1, 5), *gx::pick({1, 1, 2, 3})}; }   // addressed to another station (both levels or one of them)
@@ -194,6 +196,7 @@ int main(int argc, char **argv) {
                     else if (what == 7) { o.kind = K_RESET; o.a = {0, 1, 1}; }   // Reset of the quick-discovery service: releases the mapper, but the topology observations stay
                     else if (what == 8) { o.kind = K_SHELL; o.a = {*gx::range<int>(0, 2), 1, *gx::pick({6, 6, 2, 4}), *hg::seq_gen(), 0}; }   // quick discovery has no Query/Emit/Probe: such a frame is neither answered nor does it consume the record
                     else if (what == 10) { o.kind = K_PROBE; o.a = {*gx::pick({0, 1, 0xFFFFF0, 0xFFFFF1, 0xFFFFF3}), *gx::pick({0xFFFFF0, 0xFFFFF0, 0xFFFFF1, 0xFFFFF2, 0xFFFFF3}), 0, 0}; }   // origin claimed: the responder itself, nobody, everybody, the mapper
+                    else if (what == 11 && next_id > 0) { int id = *gx::range<int>(0, std::min(next_id, 256) - 1); o.kind = K_PROBE; if (*gx::chance(50)) o.a = {0xFFFE00 + id, id % 3, 0, 0}; else o.a = {id, 0xFFFE00 + id % 3, 0, 0}; }   // twin of an observed address: a distinct observation
                     else if (what == 9) { o.kind = K_OTHERIF; o.a = {*gx::pick({0, 3, 5, 5, 5, 1, 2}), 0, *gx::range<int>(1, 400)}; }
                     else { o.kind = K_HELLO; o.a = {1, 0, 7}; }
                     c.ops.push_back(o);
